@@ -24,8 +24,10 @@ OPAQUE_KEY_PLUGINS = ["kill_by_memory_size_or_growth", "kill_by_io_cost"]
 
 ASSUMPTIONS = [
     "cgroup.procs lines are decimal numbers (kernel grammar); a line `0` (foreign pid namespace) is generated",
-    "the world does not change while one run() executes, except that signalled processes leave cgroup.procs "
-    "and (rm_at_kill stream) is not modelled - cgroups appear / vanish between ticks",
+    "model: the world does not change while one run() executes, except that signalled processes leave cgroup.procs; "
+    "cgroups appear / vanish between ticks.  C01's swap stream does change it mid-run (a candidate's directory is replaced at "
+    "its path inside the first kill(2) aimed at it): for those runs only the property clauses are evaluated on the "
+    "implementation's trace, the model is not compared",
     "ranking keys of kill_by_memory_size_or_growth and kill_by_io_cost are treated as unknown (any order inside a "
     "preference class is accepted; the keys are C09's subject); kill_by_pressure / swap_usage / pg_scan keys are exact",
     "the root cgroup itself is never a kill target; prekill hooks are absent (C07)",
@@ -331,7 +333,8 @@ def gen_world(rng, tier, prop, o_over=None):
 
 
 def gen_one(rng, tier, prop, stream):
-    """stream: base | zero (pid 0 lines) | nonint (non-integer counter xattrs) | restart (systemd_restart)"""
+    """stream: base | zero (pid 0 lines) | nonint (non-integer counter xattrs) | restart (systemd_restart) | meta | swap (a candidate
+    cgroup is replaced at its path while it is being killed)"""
     if stream == "restart":
         ids, tree = gen_world(rng, "quick", prop, dict(depth=1, branch=1))
         args = {"service": rng.choice(["foo.service", "bar.service"]), "post_action_delay": str(rng.choice([0, 1, 2]))}
@@ -414,7 +417,42 @@ def gen_one(rng, tier, prop, stream):
         for k, v in extra.items():
             sc["kill"].setdefault(k, v)
     sc["ticks"] = ticks
+    if stream == "swap":
+        add_swap(rng, sc, tree)
     return sc
+
+
+def add_swap(rng, sc, tree):
+    """the swap stream: one tick; while the first pid of a candidate cgroup P (or of its subtree) is being signalled, P's directory
+    is renamed out of the tree and a stranger with the same layout and other pids appears at P's path"""
+    sc["ticks"] = sc["ticks"][:1]
+    a = sc["cfg"]["args"]
+    a.pop("kernelkill", None)
+    a.pop("dry", None)
+    cands = [p for p in resolve_py(tree, a["cgroup"])]
+    nodes = dict(walk(tree))
+    withkids = [p for p in cands if nodes[p]["children"]]
+    if not cands:
+        return
+    p = rng.choice(withkids or cands)
+    node = nodes[p]
+    sub = [node] + [n for _, n in walk(node)]
+    pids = [x for n in sub for x in n["procs"] if x != "0"]
+    stranger = copy.deepcopy(node)
+    base = 900000 + rng.randint(0, 1000)
+
+    def rec(n):
+        nonlocal base
+        n["id"] = n["id"] + 100000
+        k = max(1, len([x for x in n["procs"] if x != "0"]))
+        n["procs"] = [str(base + i) for i in range(k)]
+        base += k
+        if "files" in n and "cgroup.procs" in n["files"]:
+            del n["files"]["cgroup.procs"]
+        for c in n["children"]:
+            rec(c)
+    rec(stranger)
+    sc["swap_at_kill"] = {"path": "/".join(p), "pids": pids, "stranger": public(stranger)}
 
 
 BUDGET = {"quick": 3000, "thorough": 50000, "search": 6000}
